@@ -1,9 +1,102 @@
-(** * C05 — placeholder while the pipeline is brought up *)
+(** * C05 — resolvers, directive filters and cost functions only ever observe spec-coerced,
+    type-conforming inputs.  This file contains only statements closed by [exact] and their
+    [Print Assumptions].
+
+    Model (Val/CoerceModel.v): [coerce_variable_values], [coerce_argument_values],
+    [coerce_literal], [coerce_var_value], [static_ok] (the validator's value / variable / argument
+    rules), [run_request], [cost_observation], parameterised by which repairs are applied
+    ([all_fixed]: the tree the check runs against; [pinned]: the tree as found).
+    Spec (Val/CoerceSpec.v): [conforms], [ref_coerce] (RefCoerce), [ref_request]. *)
 From Coq Require Import List NArith ZArith Bool.
 From ApiFu Require Import Base.Sexp Val.Values Val.CoerceModel Val.CoerceSpec Val.CoerceProofs.
+Import ListNotations.
 
-Theorem C05_null_literal : forall fx E dt vv t a,
-  coerce_literal fx E dt vv LNull t a = (if is_nonnull t then Err else Ok GNil).
-Proof. exact placeholder_null_literal. Qed.
+(** Hypotheses, all true of the real system and checked on every case of the correspondence:
+    [schema_ok]: declared defaults are values of their declared types and enum payloads are not
+    nil (the library trusts the schema author on both), names in a Go map are unique;
+    [request_ok]: variable default values are constant literals (the parser guarantees it), a Go
+    [int] is a 64-bit integer and a Go map has each key once. *)
 
-Print Assumptions C05_null_literal.
+(** Every argument map the resolver is called with conforms to the declared argument types:
+    for all type environments (scalars, enums, input objects with defaults and InputCoercion
+    hooks, recursive ones included), argument definitions, variable definitions, argument literals
+    (variables anywhere inside) and raw variable values. *)
+Theorem C05_args_conform : forall E dt site argdefs defs args raw vv m,
+  schema_ok E argdefs -> request_ok defs raw ->
+  static_ok all_fixed E dt site argdefs defs args = true ->
+  coerce_variable_values all_fixed E dt defs raw = Ok vv ->
+  coerce_argument_values all_fixed E dt argdefs args vv = Ok m ->
+  args_conform_b E argdefs m = true.
+Proof. exact args_conform. Qed.
+
+Theorem C05_called_args_conform : forall E dt site argdefs defs args raw m,
+  schema_ok E argdefs -> request_ok defs raw ->
+  run_request all_fixed E dt site argdefs defs args raw = OCalled m ->
+  args_conform_b E argdefs m = true.
+Proof. exact called_args_conform. Qed.
+
+(** the cost function (ValidateCost) is one more observer *)
+Theorem C05_cost_args_conform : forall E dt site argdefs defs args raw m,
+  schema_ok E argdefs -> request_ok defs raw ->
+  In m (cost_observation all_fixed E dt site argdefs defs args raw) ->
+  args_conform_b E argdefs m = true.
+Proof. exact cost_args_conform. Qed.
+
+(** what [args_conform_b] and [conforms] say, spelled out *)
+Theorem C05_conform_per_argument : forall E argdefs m a d,
+  args_conform_b E argdefs m = true -> In (a, d) argdefs ->
+  match aget a m with
+  | Some g => conforms E g (in_type d) = true
+  | None => is_nonnull (in_type d) = false /\ in_default d = None
+  end.
+Proof. exact args_conform_b_arg. Qed.
+
+Theorem C05_never_null_at_non_null : forall E g t,
+  conforms E g (StNonNull t) = true -> g <> GNil /\ conforms E g t = true.
+Proof. exact conforms_nonnull_not_nil. Qed.
+
+Theorem C05_always_a_list_at_list_type : forall E g t,
+  conforms E g (StList t) = true ->
+  g = GNil \/ exists items, g = GList items /\ Forall (fun x => conforms E x t = true) items.
+Proof. exact conforms_list_is_list. Qed.
+
+Theorem C05_declared_enum_value : forall E g n vals,
+  aget n E = Some (TEnum vals) -> conforms E g (StNamed n) = true ->
+  g = GNil \/ exists x v, In (x, v) vals /\ gval_eqb v g = true.
+Proof. exact conforms_enum_declared. Qed.
+
+Theorem C05_complete_field_map : forall E g n fields h,
+  aget n E = Some (TInput fields h) -> conforms E g (StNamed n) = true ->
+  g = GNil \/
+  exists kvs, (g = GMap kvs \/ exists tag, g = GTagged tag (GMap kvs)) /\
+              keys_sorted kvs = true /\
+              (forall k x, In (k, x) kvs -> exists fd, aget k fields = Some fd /\ conforms E x (in_type fd) = true) /\
+              (forall f fd, In (f, fd) fields -> ahas f kvs = true \/ (is_nonnull (in_type fd) = false /\ in_default fd = None)).
+Proof. exact conforms_object_complete. Qed.
+
+(** the repaired defects: the same statements are false of the code as found *)
+Theorem C05_args_conform_refuted_before_fix :
+  exists argdefs defs args raw m,
+    schema_ok E0 argdefs /\ request_ok defs raw /\
+    run_request pinned E0 dt0 true argdefs defs args raw = OCalled m /\
+    args_conform_b E0 argdefs m = false.
+Proof. exact args_conform_refuted_before_fix. Qed.
+
+Theorem C05_cost_args_conform_refuted_before_fix :
+  exists argdefs defs args raw m,
+    schema_ok E0 argdefs /\ request_ok defs raw /\
+    static_ok pinned E0 dt0 true argdefs defs args = false /\
+    In m (cost_observation pinned E0 dt0 true argdefs defs args raw) /\
+    args_conform_b E0 argdefs m = false.
+Proof. exact cost_args_conform_refuted_before_fix. Qed.
+
+Print Assumptions C05_args_conform.
+Print Assumptions C05_called_args_conform.
+Print Assumptions C05_cost_args_conform.
+Print Assumptions C05_conform_per_argument.
+Print Assumptions C05_never_null_at_non_null.
+Print Assumptions C05_always_a_list_at_list_type.
+Print Assumptions C05_declared_enum_value.
+Print Assumptions C05_complete_field_map.
+Print Assumptions C05_args_conform_refuted_before_fix.
+Print Assumptions C05_cost_args_conform_refuted_before_fix.
